@@ -87,6 +87,12 @@ fn join_suffix<P: AsRef<Path>>(path: &Path, suffix: P) -> PathBuf {
     path.join(components)
 }
 
+// Verification hook H6 (guard: --cfg sccache_verif): exposes the private path arithmetic.
+#[cfg(sccache_verif)]
+pub(crate) fn verif_join_suffix<P: AsRef<Path>>(path: &Path, suffix: P) -> PathBuf {
+    join_suffix(path, suffix)
+}
+
 #[derive(Debug)]
 struct OverlaySpec {
     build_dir: PathBuf,
